@@ -80,6 +80,15 @@ def rule_r2(rep, program):
                 r.inst({"key": key, "memoised": f.cache_deps is not None})
                 if f.cache_deps is None:
                     r.violate(PROP, key, f"calls the user model function self.{calls[0].func.attr} but is not memoised: every call re-evaluates the model", node=f.node, file=f.file)
+                # a user function has one memoised wrapper, the method of the same name: values that a
+                # derivative function handed back as auxiliary output are stored under that wrapper's key,
+                # so any other method must go through the wrapper to find them
+                for cl in calls:
+                    wrapper = cl.func.attr.lstrip("_")
+                    if name != wrapper and k.resolve(wrapper) is not None and k.resolve(wrapper).cache_deps is not None:
+                        key2 = f"{f.qualname}:bypasses:{wrapper}"
+                        if key2 not in {x.key for x in r.findings}:
+                            r.violate(PROP, key2, f"{f.qualname} evaluates the user function self.{cl.func.attr} directly instead of through its memoised wrapper self.{wrapper}(state): a value of {wrapper} already in the state's cache (stored as auxiliary output of a derivative, or by an earlier request) is ignored and the model is evaluated again", node=cl, file=f.file)
     return r
 
 
